@@ -213,13 +213,13 @@ def probeFail (w : World) (p : Probe) (seen : Seen) : Option Why :=
       | .apply _ _, _, _ => some .precedence
       | _, _, _ => some .wrongOwner
 
-/-- The clients sorted by name, as (uid, ver). -/
-def insertKey (c : Client) : List Client → List Client
-  | [] => [c]
-  | d :: rest => if compare c.name d.name == .lt then c :: d :: rest else d :: insertKey c rest
+/-- The registry as (uid, ver) pairs. -/
+def regPairs (reg : Registry) : List (Nat × Nat) := reg.map fun c => (c.uid, c.ver)
 
-def sortedByName (reg : Registry) : List (Nat × Nat) :=
-  (reg.foldr insertKey []).map fun c => (c.uid, c.ver)
+/-- Two lists with the same length and the same members (the listing of all
+clients is compared as a set: the property says nothing about its order). -/
+def sameMembers (a b : List (Nat × Nat)) : Bool :=
+  a.length == b.length && a.all (fun x => b.contains x) && b.all (fun x => a.contains x)
 
 /-- One step of the monitor: the operation, whether the implementation accepted
 it, and what it shows afterwards.  Returns the new world and the first clause
@@ -231,7 +231,7 @@ def specStep (w : World) (op : Op) (accepted : Bool) (probes : List (Probe × Se
     if !noSharing w'.reg then some .clashAccepted
     else match probes.findSome? (fun ps => probeFail w' ps.1 ps.2) with
       | some y => some y
-      | none => if all != sortedByName w'.reg then some .content else none
+      | none => if !sameMembers all (regPairs w'.reg) then some .content else none
   (w', why)
 
 def specOK (w : World) (op : Op) (accepted : Bool) (probes : List (Probe × Seen))
